@@ -1031,6 +1031,7 @@ class SupportComplexDataType(Element):
                 datatype not in ('varies', None, self.datatype) and self.datatype is not None:
             reference = load_reference(datatype, 'Datatypes_Structs', self.version)
             new_ref = [ref_item for ref_item in self.reference]
+            new_ref[0] = 'sequence'  # (the element may have been a leaf so far, e.g. a varies or base datatype field)
             new_ref[1] = reference
             new_ref[2] = datatype
             structure = ElementFinder.get_structure(self, new_ref)
@@ -1495,6 +1496,15 @@ class Field(SupportComplexDataType):
             # (a named field has its datatype in the tables: STRICT does not let 'varies' replace it)
             reference = ('leaf', None, 'varies', None, None, -1)
 
+        if name is None and reference is None and datatype not in (None, 'varies') and \
+                not is_base_datatype(datatype, version):
+            # an unnamed field of complex datatype has the structure of that datatype
+            try:
+                dt_struct = load_reference(datatype, "Datatypes_Structs", version or get_default_version())
+                reference = ('sequence', dt_struct, datatype, None, None, -1)
+            except ChildNotFound:
+                pass
+
         # the field is built on its own and handed to its (traversal) parent at the end, once every check is
         # passed: a construction that is refused leaves the parent as it was
         try:
@@ -1514,6 +1524,11 @@ class Field(SupportComplexDataType):
                                  validation_level, None)
             else:
                 raise
+
+        if name is None and reference is not None and reference[0] == 'sequence':
+            # (Element.__init__ looks for the structure of named elements only)
+            for k, v in iteritems(ElementFinder.get_structure(self, reference)):
+                setattr(self, k, v)
 
         if datatype is not None and Validator.is_strict(validation_level) and datatype != self.datatype and \
                 not (name is None and datatype == 'varies'):
